@@ -277,6 +277,21 @@ add('HILB',
     Rule('X-HILB', 'self.history[..self.ntaps].clone_from_slice(&iv[$a:e..$b:e]);', 'history_from(&mut self.history, self.ntaps, &iv, $a, $b);', stmt_start=True),
     Rule('X-HILB', '$ts:i.retain(|t| t.pos() < $n:e);', 'retain_tags_before(&mut $ts, $n);', stmt_start=True))
 
+# X-PANIC: where C15 is the question, an assert!/expect is an OBLIGATION (the site must be unreachable), not a refusal
+add('PANIC',
+    Rule('X-PANIC', 'assert!($c:e, $rest:a);', 'if !($c) { reach_panic(); }', stmt_start=True),
+    Rule('X-PANIC', 'assert!($c:e $_:c);', 'if !($c) { reach_panic(); }', stmt_start=True),
+    Rule('X-PANIC', 'assert_eq!($a:e, $b:e $rest:a);', 'if !(($a) == ($b)) { reach_panic(); }', stmt_start=True),
+    Rule('X-PANIC', 'assert_ne!($a:e, $b:e $rest:a);', 'if ($a) == ($b) { reach_panic(); }', stmt_start=True))
+
+# X-SIGMF (unit sigmf)
+add('SIGMF',
+    Rule('X-SIGMF', 'std::fs::File', 'SigFile'),
+    Rule('X-SIGMF', '$f:p.seek(std::io::SeekFrom::Start($p:e))', '$f.seek_to($p)'),
+    Rule('X-SIGMF', '$f:p.read(&mut $b:i)', '$f.read_into(&mut $b)'),
+    Rule('X-SIGMF', '$o:i.fill_from_iter($b:p.chunks_exact($ss:e).take($k:e).map(|d| T::parse(d).expect($m:e)) $_:c);', 'fill_from_parsed_chunks_take::<T>(&mut $o, &$b, $ss, $k);', stmt_start=True),
+    Rule('X-SIGMF', '$b:p.drain(..($k:e));', 'drain_prefix(&mut $b, $k);', stmt_start=True))
+
 # X-ZC (unit zc): float expressions of zero_crossing.rs become calls of uninterpreted functions; the optional clock stream
 add('ZC',
     Rule('X-ZC', '($a:e + ($b:e / 2.0)) as u64', 'f2u(fadd($a, fhalf($b)))'),
